@@ -45,3 +45,16 @@ Example C03_hypotheses_satisfiable :
   fst (eval_run (fun _ v => Some v) (fun _ _ => None) (fun _ _ => false) t (VArr [VNull; VBool true]) st_init)
   = OOk [RVal VNull; RVal (VBool true)].
 Proof. cbv zeta. split; [reflexivity|]. split; [cbn; unfold two62; repeat split; lia|]. split; [repeat split|]. vm_compute. reflexivity. Qed.
+
+(* From the path text (AccFilt.v, with C01_filter_retrieval): for every path of steps and filters (KeyDefs.fchain_path) the
+   call returns a NON-EMPTY result or an error — never an empty success, never a panic. *)
+From JP Require Import Json Text Tree Grammar Actions Eval WF EvalInv1 KeyDefs FiltChain FiltChainAddr AccFilt.
+From Coq Require Import List. Import ListNotations.
+Theorem C03_nonempty_or_error_from_text : forall cfg parse_float regex_ok ffun afun regex_match,
+  (forall f v w, small v -> ffun f v = Some w -> small w) ->
+  (forall f l w, Forall small l -> afun f l = Some w -> small w) ->
+  forall x r doc st, forallb fstep_ok (x :: r) = true -> forallb (fstep_okp parse_float regex_ok) (x :: r) = true -> small doc -> ok st ->
+  exists t, parse_with cfg parse_float regex_ok jsonpath_grammar (fchain_path (x :: r)) = ParseOk t /\
+            ((exists a l, fst (eval_run ffun afun regex_match t doc st) = OOk (a :: l)) \/ (exists e, fst (eval_run ffun afun regex_match t doc st) = OErr e)).
+Proof. exact outcome_from_text. Qed.
+Print Assumptions C03_nonempty_or_error_from_text.
